@@ -326,43 +326,71 @@ def g_specs(thorough):
                     continue
                 specs.append({"kind": kind, "dtype": dtype, "per_axis": per_axis, "rep": rep, "args": G_ACCS[i % len(G_ACCS)]})
                 i += 1
+        # convolutions sharing ONE filter and ONE bias constant with different output quantisations (siamese / unrolled
+        # networks): every operator must get the records of its own output scale
+        for j, (dtype, per_axis) in enumerate((("int8", False), ("int8", True), ("uint8", False), ("int16", False), ("int8", False))):
+            specs.append({"kind": "siamese", "dtype": dtype, "per_axis": per_axis, "rep": rep, "variant": j,
+                          "args": [["--accelerator-config", "ethos-u65-512"], ["--accelerator-config", "ethos-u55-128"],
+                                   ["--accelerator-config", "ethos-u65-256"]][(j + rep) % 3]})
     return specs
 
 
 def g_build(spec):
-    """-> (Net, meta): one operator; meta: source operator kind, data type and the float32 scales of the file"""
+    """-> (Net, metas): metas, one per convolution-type source operator (keyed by the name of its output tensor):
+    operator kind, data type and the float32 scales of the file"""
     import netgen
     import numpy as np
-    rng = random.Random("c09g/%s/%s/%s/%s/%s" % (spec["kind"], spec["dtype"], spec["per_axis"], spec["rep"], vlib.seed()))
+    rng = random.Random("c09g/%s/%s/%s/%s/%s/%s" % (spec["kind"], spec["dtype"], spec["per_axis"], spec["rep"], spec.get("variant", 0),
+                                                   vlib.seed()))
     net = netgen.Net("c09_%s_%s" % (spec["kind"], spec["dtype"]))
     dt, kind = spec["dtype"], spec["kind"]
     if kind == "fc":
         x = netgen._inp(net, rng, [1, rng.choice([8, 16, 33, 100])], dt)
-        y = netgen.fully_connected(net, rng, x, rng.choice([2, 10, 16, 33]))
+        net.output(netgen.fully_connected(net, rng, x, rng.choice([2, 10, 16, 33])))
     elif kind == "conv_head":
         x = netgen._inp(net, rng, [1, 1, 1, rng.choice([8, 16, 17, 32, 64])], dt)
-        y = netgen.conv2d(net, rng, x, rng.choice([2, 8, 10, 16, 33]), (1, 1), (1, 1), (1, 1), "SAME", "NONE", per_axis=spec["per_axis"])
+        net.output(netgen.conv2d(net, rng, x, rng.choice([2, 8, 10, 16, 33]), (1, 1), (1, 1), (1, 1), "SAME", "NONE",
+                                 per_axis=spec["per_axis"]))
     elif kind == "conv":
         x = netgen._inp(net, rng, [1, rng.choice([4, 7, 9]), rng.choice([4, 6, 11]), rng.choice([3, 8, 16])], dt)
         k = rng.choice([(1, 1), (3, 3), (2, 3)])
-        y = netgen.conv2d(net, rng, x, rng.choice([3, 8, 16, 33]), k, (1, 1), (1, 1), "SAME", rng.choice(["NONE", "RELU"]),
-                          per_axis=spec["per_axis"])
+        net.output(netgen.conv2d(net, rng, x, rng.choice([3, 8, 16, 33]), k, (1, 1), (1, 1), "SAME", rng.choice(["NONE", "RELU"]),
+                                 per_axis=spec["per_axis"]))
+    elif kind == "siamese":
+        # as netgen.fam_siamese, with the data type (incl. int16 / int64 bias) and per-channel weights chosen by the spec
+        h, w, c = rng.choice([8, 12, 16]), rng.choice([8, 12, 16]), rng.choice([2, 3, 4, 8])
+        sc, zp = netgen._rs(rng, 0.005, 0.1), netgen._zp(rng, dt)
+        a = net.input([1, h, w, c], dt, sc, zp, name="input0")
+        b = net.input([1, h, w, c], dt, sc, zp, name="input1")
+        k = rng.choice([(3, 3), (1, 1), (2, 2)])
+        st = rng.choice([(2, 2), (1, 1)])
+        oc = rng.choice([4, 8, 16])
+        ya = netgen.conv2d(net, rng, a, oc, k, st, (1, 1), "SAME", rng.choice(["NONE", "RELU"]), per_axis=spec["per_axis"])
+        shared = net.ops[-1]["inputs"][1:]
+        outs = [ya, netgen.conv2d(net, rng, b, oc, k, st, (1, 1), "SAME", "NONE", share=shared)]
+        if spec.get("variant", 0) % 2 == 0:      # a third user of the same constants behind another operator
+            m = netgen.pool(net, rng, a, "MAX_POOL_2D", (1, 1), (1, 1), "VALID")
+            outs.append(netgen.conv2d(net, rng, m, oc, k, st, (1, 1), "SAME", "NONE", share=shared))
+        net.output(*outs)
     else:
         x = netgen._inp(net, rng, [1, rng.choice([4, 7, 9]), rng.choice([4, 6, 11]), rng.choice([3, 8, 16, 24])], dt)
-        y = netgen.depthwise(net, rng, x, (3, 3), (1, 1), (1, 1), "SAME", per_axis=spec["per_axis"])
-    net.output(y)
-    o = net.ops[0]
-    xin, wt, bt = o["inputs"][0], o["inputs"][1], (o["inputs"][2] if len(o["inputs"]) > 2 else None)
-    oc = y.shape[-1]
-    ws = wt.scale if isinstance(wt.scale, (list, tuple)) else [wt.scale] * oc
+        net.output(netgen.depthwise(net, rng, x, (3, 3), (1, 1), (1, 1), "SAME", per_axis=spec["per_axis"]))
     f32 = lambda v: float(np.float32(v))
-    meta = {"op": o["kind"], "dtype": dt, "oc": oc, "ifm_scale": f32(xin.scale), "ofm_scale": f32(y.scale),
-            "w_scales": [f32(v) for v in ws], "per_axis": bool(isinstance(wt.scale, (list, tuple))),
-            "bias_dtype": bt.dtype if bt is not None else None,
-            # the reference rule: float product for uint8 and FULLY_CONNECTED, double product otherwise
-            "pprod": 24 if (dt == "uint8" or o["kind"] == "FULLY_CONNECTED") else 53,
-            "reduced": dt == "int16" and bt is not None and bt.dtype == "int64"}
-    return net, meta
+    metas = {}
+    for o in net.ops:
+        if o["kind"] not in ("CONV_2D", "DEPTHWISE_CONV_2D", "FULLY_CONNECTED"):
+            continue
+        xin, wt, bt = o["inputs"][0], o["inputs"][1], (o["inputs"][2] if len(o["inputs"]) > 2 else None)
+        y = o["outputs"][0]
+        oc = y.shape[-1]
+        ws = wt.scale if isinstance(wt.scale, (list, tuple)) else [wt.scale] * oc
+        metas[y.name] = {"op": o["kind"], "dtype": dt, "oc": oc, "ifm_scale": f32(xin.scale), "ofm_scale": f32(y.scale),
+                         "w_scales": [f32(v) for v in ws], "per_axis": bool(isinstance(wt.scale, (list, tuple))),
+                         "bias_dtype": bt.dtype if bt is not None else None, "out": y.name,
+                         # the reference rule: float product for uint8 and FULLY_CONNECTED, double product otherwise
+                         "pprod": 24 if (dt == "uint8" or o["kind"] == "FULLY_CONNECTED") else 53,
+                         "reduced": dt == "int16" and bt is not None and bt.dtype == "int64"}
+    return net, metas
 
 
 def g_read_records(words, flash, ncores):
@@ -448,7 +476,7 @@ def g_check(tier, res_violation_sink, okx):
     os.makedirs(ndir, exist_ok=True)
     jobs, metas = [], []
     for sp in specs:
-        net, meta = g_build(sp)
+        net, ms = g_build(sp)
         data = net.build()
         sha = hashlib.sha256(data).hexdigest()[:16]
         path = os.path.join(ndir, "%s_%s.tflite" % (net.name, sha))
@@ -457,18 +485,24 @@ def g_check(tier, res_violation_sink, okx):
                 f.write(data)
             os.replace(path + ".tmp", path)
         jobs.append({"tflite": path, "sha": sha, "args": sp["args"], "capture": True, "family": "c09g", "seed": sha})
-        metas.append(dict(meta, spec=sp, path=path, sha=sha))
+        for m in ms.values():
+            m.update(spec=sp, path=path, sha=sha)
+        metas.append(ms)
     results = compiles.run_all(jobs, timeout=300)
     evals, diffs, bads = 0, [], []
     dist = {"networks": len(jobs), "compiled_to_npu": 0, "not_on_npu": [], "unmapped": [], "records": 0,
-            "by_kind": {}, "staged_by_dma": 0}
+            "by_kind": {}, "staged_by_dma": 0, "operators_sharing_constants": 0}
     cases, where = [], []
-    for job, meta, r in zip(jobs, metas, results):
-        tag = "%s/%s/%s" % (meta["op"] + ("(head)" if meta["spec"]["kind"] == "conv_head" else ""), meta["dtype"],
-                            "per-channel" if meta["per_axis"] else "per-tensor")
+    for job, ms, r in zip(jobs, metas, results):
+        sp = next(iter(ms.values()))["spec"]
+
+        def tag_of(meta):
+            return "%s%s/%s/%s" % (meta["op"], {"conv_head": "(head)", "siamese": "(shared constants)"}.get(sp["kind"], ""),
+                                   meta["dtype"], "per-channel" if meta["per_axis"] else "per-tensor")
+        tag0 = tag_of(next(iter(ms.values())))
         a = artefacts.load(r) if r.get("status") == "ok" else None
         if not a or not a["npu"] or not a.get("capture") or not a["capture"].get("streams"):
-            dist["not_on_npu"].append(tag + ":" + str(r.get("status")))
+            dist["not_on_npu"].append(tag0 + ":" + str(r.get("status")))
             continue
         acc = artefacts.job_accel(job)
         ncores = 2 if acc == "ethos-u65-512" else 1
@@ -476,13 +510,23 @@ def g_check(tier, res_violation_sink, okx):
         ops = g_read_records(npu["words"], npu["flash"], ncores)
         cops = [o for o in a["capture"]["streams"][0]["ops"] if o["cls"] in ("NpuConv2DOperation", "NpuConvDepthWiseOperation")]
         if len(ops) != len(cops) or not ops or len(a["npu"]) != 1:
-            dist["unmapped"].append(tag)
+            dist["unmapped"].append(tag0)
             continue
         dist["compiled_to_npu"] += 1
         if any(o.get("cmd", {}).get("kind") == "dma" for o in a["capture"]["streams"][0]["ops"]):
             dist["staged_by_dma"] += 1
-        seen = set()
+        seen = {k: set() for k in ms}
         for per_core, co in zip(ops, cops):
+            # the source operator of this NPU operation: Vela names an operator after its output tensor
+            src = co["cmd"].get("primary_op_name")
+            if src not in ms:
+                src = (co["cmd"].get("ofm") or {}).get("name", "")
+                src = src[:-4] if src.endswith("_cpu") else src
+            if src not in ms:
+                dist["unmapped"].append(tag0 + ":operator %s" % co["cmd"].get("primary_op_name"))
+                continue
+            meta = ms[src]
+            tag = tag_of(meta)
             d0, d1 = co["cmd"]["ofm_box"]["start"][-1], co["cmd"]["ofm_box"]["end"][-1]
             for c in range(ncores):
                 chans = list(range(d0 + c, d1, ncores))
@@ -493,16 +537,20 @@ def g_check(tier, res_violation_sink, okx):
                     dist["unmapped"].append(tag + ":scale bytes")
                     continue
                 for k, ch in enumerate(chans):
-                    if ch in seen:
+                    if ch in seen[src]:
                         continue
-                    seen.add(ch)
+                    seen[src].add(ch)
                     _, mult, shift = g_decode(data[10 * k:10 * k + 10])
                     cases.append((meta["pprod"], 1 if meta["reduced"] else 0) + decomp(meta["ifm_scale"]) + decomp(meta["w_scales"][ch])
                                  + decomp(meta["ofm_scale"]))
                     where.append((meta, tag, ch, mult, shift, job))
-        dist["by_kind"][tag] = dist["by_kind"].get(tag, 0) + len(seen)
-        if len(seen) != meta["oc"]:
-            dist["unmapped"].append(tag + ":%d of %d channels" % (len(seen), meta["oc"]))
+        for src, meta in ms.items():
+            tag = tag_of(meta)
+            dist["by_kind"][tag] = dist["by_kind"].get(tag, 0) + len(seen[src])
+            if len(seen[src]) != meta["oc"]:
+                dist["unmapped"].append(tag + ":%s %d of %d channels" % (src, len(seen[src]), meta["oc"]))
+        if sp["kind"] == "siamese":
+            dist["operators_sharing_constants"] += len(ms)
     outs = models.run("conv_scale", cases, exe_name=EXE) if okx and cases else [None] * len(cases)
     for (meta, tag, ch, mult, shift, job), o in zip(where, outs):
         evals += 1
@@ -550,12 +598,12 @@ def g_check(tier, res_violation_sink, okx):
                 rp = meta["path"]
             bads.append(("packed-" + tag,
                          {"artefact": "packed scale record", "operator": meta["op"], "kind": meta["spec"]["kind"], "dtype": meta["dtype"],
-                          "per_channel": meta["per_axis"], "channel": ch, "network": meta["sha"]},
-                         {"network": rp, "vela_args": job["args"], "operator": meta["op"], "spec": meta["spec"], "channel": ch,
+                          "per_channel": meta["per_axis"], "operator_output": meta["out"], "channel": ch, "network": meta["sha"]},
+                         {"network": rp, "vela_args": job["args"], "operator": meta["op"], "operator_output": meta["out"], "spec": meta["spec"], "channel": ch,
                           "ifm_scale": si, "weight_scale": sw, "ofm_scale": so, "record": [mult, shift], "reference": list(exp),
                           "reference_rule": "double(float32(in*w))/double(out)" if meta["pprod"] == 24 else "double(in)*double(w)/double(out)",
                           "reason": why},
-                         "compiled %s: scale record of channel %d is (%d, %d): %s" % (tag, ch, mult, shift, why)))
+                         "compiled %s, operator writing %s: scale record of channel %d is (%d, %d): %s" % (tag, meta["out"], ch, mult, shift, why)))
     return evals, dist, diffs, bads
 
 
